@@ -307,11 +307,20 @@ def run(ctx, rep, tier):
     rep.rule("QR", "the degree-0 regulariser only touches rows without any weighted entry", 3)
     rep.rule("PE", "every cell gets its penalty spring and every net its own pin count: no term dropped by a position test, no model-wide count in a per-net weight", 2)
     rep.rule("PV", "net weight provenance Circuit -> NetModel::netWeight_ (explicit forwarding, no default)", 5)
+    rep.rule("SN", "the extreme pins of a net are found by running extrema started on the neutral side", 2)
+    rep.rule("B2", "bound-to-bound stamping: the two bound pins of a net are distinct pins, so no pin pair is stamped twice", 1)
     check_qt(ctx, rep)
     check_qd(ctx, rep)
     check_qh(ctx, rep)
     check_pv(ctx, rep)
+    check_weights_replaced(ctx, rep)
+    check_no_truncation(ctx, rep)
     check_terms(ctx, rep)
+    check_double_stamp(ctx, rep)
+    from .common import check_sentinels
+    fs = [g for g in prog.funcs.values() if g.cls == CQ + "NetModel" and g.body is not None]
+    if check_sentinels(ctx, rep, "SN", fs) == 0:
+        rep.unknown("SN", None, None, "NetModel", "no running minimum / maximum found (shape changed)")
 
 
 # ---- QT --------------------------------------------------------------------
@@ -475,7 +484,10 @@ def check_qd(ctx, rep):
             if x.get("kind") == "BinaryOperator" and x.get("opcode") == "=":
                 l, r = children(x)
                 lc = canon(l)
-                if lc[0] == "index" and lc[1] == ("field", mc + "::hasNonZero_", ("this",)) and canon(r) != ("lit", "0"):
+                rc_ = canon(r)
+                # the flag is sticky: a mark is the store of a non-zero *constant* (a value that depends on the weight of this stamp
+                # would clear the mark an earlier, weighted stamp has set)
+                if lc[0] == "index" and lc[1] == ("field", mc + "::hasNonZero_", ("this",)) and rc_[0] == "lit" and str(rc_[1]) not in ("0", "false", "0.0", "'\\0'"):
                     # the mark must happen whenever the entry is made: its guards are a subset of every entry's guards
                     mg = {(gc, val) for gc, val, _a, asr in (ctx.guards(f, x) or []) if not asr}
                     ok = True
@@ -650,6 +662,60 @@ def check_pv(ctx, rep):
                       key="NetModel::addNet|weight never stored")
 
 
+def check_no_truncation(ctx, rep):
+    """QT (solver side). NetModel and MatrixCreator work on floating-point data throughout; the only values that become integers are
+    rounded export coordinates. Any other implicit float -> int conversion in their member functions truncates a weight, a distance
+    or a solver parameter (an `int epsilon` parameter receiving approximationDistance drops the clamp entirely below 1)."""
+    prog = ctx.prog
+    n, bad = 0, 0
+    for f in prog.all_funcs(with_lambdas=True):
+        owner = f.outer if getattr(f, "outer", None) is not None else f
+        if f.body is None or owner.cls not in (CQ + "NetModel", CQ + "MatrixCreator"):
+            continue
+        n += 1
+        for x in walk(f.body):
+            if x.get("kind") == "ImplicitCastExpr" and x.get("castKind") == "FloatingToIntegral":
+                src = strip(children(x)[0])
+                sc = canon(src)
+                if sc[0] == "call" and sc[1] in ("round", "lround", "llround", "floor", "ceil", "nearbyint", "trunc"):
+                    continue
+                if src.get("kind") == "FloatingLiteral":
+                    continue
+                bad += 1
+                rep.violation("QT", x, f, "%s: %s is implicitly truncated to an integer" % (f.short, pretty(sc)[:60]),
+                              "a floating-point weight, distance or solver parameter loses its fractional part (and vanishes below 1): the system solved is not "
+                              "the documented model", key="%s|float value truncated" % f.short)
+    if n and not bad:
+        rep.holds("QT", "src/place_global/net_model.cpp", None, "no implicit float -> int conversion in %d functions of NetModel / MatrixCreator" % n,
+                  "rounded export coordinates excepted")
+
+
+def check_weights_replaced(ctx, rep):
+    """PV (replacement). Circuit::setNets replaces the whole netlist: the weights of the previous netlist must not survive it. On every
+    normal path the member netWeights_ is *assigned* (operator=, assign, clear) - a resize() alone keeps the old entries, so a netlist
+    loaded without weights would inherit the weights of the one loaded before."""
+    from ..cfg import cfg_of
+    prog = ctx.prog
+    fq = CQ + "Circuit::netWeights_"
+    for f in prog.func(CQ + "Circuit::setNets", required=False) or []:
+        g = cfg_of(f)
+        nodes = []
+        for x in walk(f.body):
+            k = x.get("kind")
+            if k == "CXXOperatorCallExpr" and callee_info(x)["name"] == "operator=" and len(children(x)) >= 3 and canon(children(x)[1]) == ("field", fq, ("this",)):
+                nodes.append(g.node_for(x))
+            elif k == "CXXMemberCallExpr" and callee_info(x)["name"] in ("assign", "clear") and callee_info(x)["obj"] is not None and \
+                    canon(callee_info(x)["obj"]) == ("field", fq, ("this",)):
+                nodes.append(g.node_for(x))
+        nodes = [n_ for n_ in nodes if n_ is not None]
+        what = "Circuit::setNets replaces netWeights_"
+        if nodes and g.exit.idx not in g.reachable_from([g.entry], avoid=nodes):
+            rep.holds("PV", nodes[0].ast, f, what, "assigned on every normal path")
+        else:
+            rep.violation("PV", f.decl, f, what, "some normal path leaves the member without assigning it (a resize keeps the existing entries): the weights of "
+                          "the previously loaded netlist are handed to the solver for the new one", key="Circuit::setNets|net weights not replaced on every path")
+
+
 def check_terms(ctx, rep):
     """PE. (a) MatrixCreator::addPenalty adds one spring per cell in a loop over all cells; the spring's stiffness is what pulls the
     cell to its target, so it must be added whatever the current distance is: a skip decided on the placements (`dist == 0`:
@@ -712,3 +778,175 @@ def check_terms(ctx, rep):
                               "nets of different degree are weighted wrongly against each other", key="%s|model-wide pin count in a per-net weight" % f.short)
     if m == 0:
         rep.holds("PE", "src/place_global/net_model.cpp", None, "no per-net weight is scaled by the pin count of the whole model")
+
+
+# ---- B2 --------------------------------------------------------------------
+
+def _root_var(c):
+    """Root variable id of an lvalue / access path in canonical form (var, field-of-var, index-of-var ...)."""
+    while isinstance(c, tuple) and c:
+        if c[0] == "var":
+            return c[1]
+        nxt = next((t for t in c[1:] if isinstance(t, tuple)), None)
+        if nxt is None:
+            return None
+        c = nxt
+    return None
+
+
+def _selector_tie(ctx, f):
+    """For an extremal-pin selector (a loop keeping the best position seen and its index; the result is a tuple whose first component
+    is the index, or a struct filled in the loop): ('min'|'max', 'first'|'last') = which extreme it selects and which index it returns
+    when all positions are equal; None when the shape is not recognised."""
+    from .common import for_loop_info
+    rets = [children(y)[0] for y in walk(f.body) if y.get("kind") == "ReturnStmt" and children(y)]
+    if len(rets) != 1:
+        return None
+    rc = canon(rets[0])
+    idx = next((t for t in subterms(rc) if isinstance(t, tuple) and t and t[0] == "var"), None)
+    if idx is None:
+        return None
+    loops = [for_loop_info(x) for x in walk(f.body) if x.get("kind") == "ForStmt"]
+    loops = [l for l in loops if l and l.get("step") in (1, -1)]
+    if len(loops) != 1:
+        return None
+    l = loops[0]
+    found = []
+    for y in walk(l["body"]):
+        if y.get("kind") != "IfStmt":
+            continue
+        cs = children(y)
+        cond = canon(cs[0])
+        if cond[0] != "bin" or cond[1] not in ("<", "<=", ">", ">="):
+            continue
+        assigned = set()
+        for z in walk(cs[1]):
+            if z.get("kind") == "BinaryOperator" and z.get("opcode") == "=":
+                r_ = _root_var(canon(children(z)[0], refs=False))
+                if r_ is not None:
+                    assigned.add(r_)
+            elif z.get("kind") == "CXXOperatorCallExpr" and callee_info(z) and callee_info(z)["name"] == "operator=":
+                tgt = callee_info(z)["obj"] if callee_info(z)["obj"] is not None else (callee_info(z)["args"][0] if callee_info(z)["args"] else None)
+                r_ = _root_var(canon(tgt, refs=False)) if tgt is not None else None
+                if r_ is not None:
+                    assigned.add(r_)                        # `best = BoundPin{i, ...};`
+        if idx[1] not in assigned:
+            continue
+        a, b = cond[2], cond[3]
+        op = cond[1]
+        ra, rb = _root_var(a), _root_var(b)
+        if rb in assigned and ra not in assigned:
+            pass                                           # candidate op best
+        elif ra in assigned and rb not in assigned:
+            op = {"<": ">", "<=": ">=", ">": "<", ">=": "<="}[op]    # best op candidate -> candidate op' best
+        else:
+            return None
+        found.append(op)
+    if len(found) != 1:
+        return None
+    op = found[0]
+    kind = "min" if op in ("<", "<=") else "max"
+    strict = op in ("<", ">")
+    asc = l["step"] == 1
+    tie = "first" if (asc == strict) else "last"
+    return kind, tie
+
+
+def _selected_pin_source(f, var_id):
+    """(canonical initialiser, declaration node) when local var_id holds the result of a call: a structured binding of it, or a
+    variable initialised with it."""
+    from .common import binding_source
+    bs = binding_source(f, var_id)
+    if bs is not None:
+        return bs[0], bs[2]
+    d = f.unit.by_id.get(var_id)
+    if d is not None and d.get("kind") == "VarDecl" and children(d):
+        c = canon(children(d)[-1])
+        if c[0] == "call" and isinstance(c[1], str) and c[1].startswith(CQ):
+            g = _PROG[0].func(c[1], required=False) if _PROG[0] is not None else None
+            g = g[0] if isinstance(g, list) and g else g
+            if g is not None and not isinstance(g, list) and g.body is not None and any(y.get("kind") in ("ForStmt", "CXXForRangeStmt", "WhileStmt") for y in walk(g.body)):
+                return c, d
+    return None
+
+
+_PROG = [None]
+
+
+def check_double_stamp(ctx, rep):
+    """B2. The bound-to-bound stamping connects every pin to the two bound pins of its net (the selected minimum and maximum pin) and
+    skips the pin that is itself a bound. When both selectors return the *same* pin - all pins of the net at one position - every other
+    pin is connected to that pin twice: a two-pin net then pulls twice as hard as its weight says (and twice as hard as in the other
+    three models, which are the same spring for two pins). Accepted: a guard `minI != maxI` on one of the two stamps, or selectors whose
+    tie-breaking returns different pins (one the first, the other the last pin at the extreme position)."""
+    prog = ctx.prog
+    _PROG[0] = prog
+    MC = CQ + "MatrixCreator"
+    n = 0
+    for f in list(prog.funcs.values()):
+        if f.cls != MC or f.body is None:
+            continue
+        stamps = []
+        for x in walk(f.body):
+            if x.get("kind") not in ("CXXMemberCallExpr", "CallExpr"):
+                continue
+            ci = callee_info(x)
+            if not ci or ci["name"] not in ("addPin", "addMovingPin", "addFixedPin"):
+                continue
+            decs = {}
+            for a in ci["args"]:
+                for t in subterms(canon(a)):
+                    if isinstance(t, tuple) and t and t[0] == "var":
+                        src = _selected_pin_source(f, t[1])
+                        if src is not None:
+                            decs[id(src[1])] = src
+            if len(decs) == 1:
+                stamps.append((x, list(decs.values())[0]))
+        groups = {}
+        for x, src in stamps:
+            groups.setdefault(id(src[1]), (src, []))[1].append(x)
+        if len(groups) < 2:
+            continue
+        gl = list(groups.values())
+        for i in range(len(gl)):
+            for j in range(i + 1, len(gl)):
+                (b1, xs1), (b2, xs2) = gl[i], gl[j]
+                n += 1
+
+                def ids_of(src):
+                    d = src[1]
+                    if d.get("kind") == "DecompositionDecl":
+                        binds = [c for c in inner(d) if c.get("kind") == "BindingDecl"]
+                        return {binds[0].get("id")} if binds else set()
+                    return {d.get("id")}
+                i1, i2 = ids_of(b1), ids_of(b2)
+                guarded = False
+                for x in xs1 + xs2:
+                    for gc, val, _a, _b in (ctx.guards(f, x) or []):
+                        if gc[0] == "bin" and gc[1] in ("==", "!="):
+                            ra, rb = _root_var(gc[2]), _root_var(gc[3])
+                            if (ra in i1 and rb in i2) or (ra in i2 and rb in i1):
+                                if (gc[1] == "==") != bool(val):
+                                    guarded = True
+                what = "%s: stamps to the two bound pins (%s, %s)" % (f.short, pretty(b1[0])[:30], pretty(b2[0])[:30])
+                if guarded:
+                    rep.holds("B2", xs2[0], f, what, "one of them is guarded by the two bounds being different pins")
+                    continue
+                sel = []
+                for src in (b1, b2):
+                    c = src[0]
+                    q = c[1] if c[0] == "call" and isinstance(c[1], str) else None
+                    g = prog.func(q, required=False) if q else None
+                    g = g[0] if isinstance(g, list) and len(g) == 1 else (g if g is not None and not isinstance(g, list) else None)
+                    sel.append(_selector_tie(ctx, g) if g is not None and g.body is not None else None)
+                if None in sel:
+                    rep.unknown("B2", xs2[0], f, what, "no guard on the two bounds being different pins, and the tie-breaking of the selectors was not recognised")
+                elif sel[0][0] != sel[1][0] and sel[0][1] != sel[1][1]:
+                    rep.holds("B2", xs2[0], f, what, "the selectors break ties differently (%s pin at the minimum, %s pin at the maximum): distinct pins whenever the net has two" %
+                              ((sel[0][1], sel[1][1]) if sel[0][0] == "min" else (sel[1][1], sel[0][1])))
+                else:
+                    rep.violation("B2", xs2[0], f, what, "when all pins of the net are at one position both selectors return the %s pin: every other pin is stamped to it "
+                                  "twice, so a two-pin net pulls with twice its weight (the other three models use one spring)" % sel[0][1],
+                                  key="%s|same pin as both bounds" % f.short)
+    if n == 0:
+        rep.unknown("B2", None, None, "bound-to-bound stamping", "no function stamping to two selected bound pins found (shape changed)")
